@@ -29,6 +29,25 @@ def is_signed(t):
     return t in BITS and BITS[t][1]
 
 
+def unwrap_keep_conversions(e, enums=None):
+    """Like ir.unwrap, but an implicit conversion between integer types of different range is kept: its result is
+    the converted value, not the operand."""
+    while isinstance(e, dict):
+        k = e.get("k")
+        if k == "Cast" and e.get("style") == "implicit":
+            a, b = type_range(e.get("from"), enums), type_range(e.get("t"), enums)
+            if a is not None and b is not None and a != b:
+                break
+            e = e.get("e")
+        elif k in ("DefaultArg", "DefaultInit", "StdInitList"):
+            e = e.get("e")
+        elif k == "Construct" and e.get("copymove") and len(e.get("args", [])) == 1:
+            e = e["args"][0]
+        else:
+            break
+    return e
+
+
 def _num(s):
     try:
         return int(s)
@@ -98,7 +117,7 @@ class Ctx:
 def rng(e, ctx):
     """Interval of an integer expression or None when its type is not an integer type."""
     e0 = e
-    e = unwrap(e)
+    e = unwrap_keep_conversions(e, ctx.enums)
     if not isinstance(e, dict):
         return None
     cv = const_value(e0)
@@ -114,6 +133,11 @@ def rng(e, ctx):
             return tr
         if inner[0] >= tr[0] and inner[1] <= tr[1]:
             return inner
+        # a conversion that does not preserve every value: the whole target type, unless a stated precondition
+        # bounds this kind of conversion
+        a = ctx.assume.get("cast:%s->%s" % ((e.get("from") or "").replace("const ", ""), (e.get("t") or "").replace("const ", "")))
+        if a is not None:
+            return (max(tr[0], a[0]), min(tr[1], a[1]))
         return tr
     if k == "Bin":
         op = e["op"]
